@@ -120,18 +120,20 @@ def updateCheckpoint (c : Ctl) (e : CkEnv) : Ctl :=
     | none => { c with checkpoint := "" }
   else { c with checkpoint := "" }
 
-/-- `setReplicaModeNoLock` (with the status re-evaluation) -/
-def setMode (c : Ctl) (a : String) (m : CMode) : Ctl :=
-  if !c.hasReplica a then c else
+/-- `setReplicaModeNoLock` up to (not including) the status re-evaluation -/
+def setModeCore (c : Ctl) (a : String) (m : CMode) : Ctl :=
   let reps := c.replicas.map fun r => if r.1 = a ∧ r.2 ≠ .err then (r.1, m) else r
   let changed := c.replicas.any fun r => r.1 = a ∧ r.2 ≠ .err
   let c1 := { c with replicas := reps }
-  let c2 := if changed then
-      match c1.backendOf a with
-      | some _ => ({ c1 with backends := c1.backends.map fun (b : Backend) => if b.addr = a then { b with mode := m } else b }).rebuild
-      | none   => c1
-    else c1
-  c2.updateVolStatus
+  if changed then
+    match c.backendOf a with
+    | some _ => ({ c1 with backends := c1.backends.map fun (b : Backend) => if b.addr = a then { b with mode := m } else b }).rebuild
+    | none   => c1
+  else c1
+
+/-- `setReplicaModeNoLock` (with the status re-evaluation) -/
+def setMode (c : Ctl) (a : String) (m : CMode) : Ctl :=
+  if !c.hasReplica a then c else (c.setModeCore a m).updateVolStatus
 
 /-- `replicator.RemoveBackend` -/
 def removeBackend (c : Ctl) (a : String) : Ctl :=
@@ -215,102 +217,124 @@ def ioFail (c : Ctl) (errs : List String) : Ctl × Bool :=
   let (c1, remains) := c.handleError errs
   (c1.removeAll errs, remains)
 
-def step (c0 : Ctl) (op : CtlOp) : Ctl × CtlOut :=
-  let c := c0.clearLog
-  match op with
-  | .register r signalOk alive elected =>
-    if r.uuid = "" then (c, .ok) else
-    let regs := (c.registered.filter fun x => !(x.uuid = r.uuid ∧ x.addr ≠ r.addr)).filter (fun x => x.addr ≠ r.addr) ++ [r]
-    let c := { c with registered := regs }
-    if c.replicas.length > 0 then (c, .ok) else
-    -- already signalled?
-    let pre : Option (Ctl) :=
-      if c.signalled then
-        if r.addr = c.maxRev then
-          let (c1, ok) := c.signalReplica signalOk
-          if ok then some c1 else none
-        else if !alive then
-          some { c with registered := c.registered.filter (fun x => x.addr ≠ c.maxRev), maxRev := "", signalled := false }
-        else none
-      else some c
-    match pre with
-    | none =>
-      -- either the re-signal failed (state already updated) or somebody else is the leader
-      if c.signalled ∧ r.addr = c.maxRev then ((c.signalReplica signalOk).1, .failed) else (c, .ok)
-    | some c =>
-      if r.rebuilding then (c, .ok) else
-      let cur := if c.maxRev = "" ∨ c.rebuildingOf c.maxRev then r.addr else c.maxRev
-      if !legalElect c.registered cur (c.revOf cur) elected then (c, .envMismatch) else
-      let c := { c with maxRev := elected }
-      if c.registered.length ≥ c.rf / 2 + 1 then
-        let (c1, ok) := c.signalReplica signalOk
-        (c1, if ok then .ok else .failed)
-      else (c, .ok)
-  | .start addr createOk size setWoOk clone setRwOk rev ck =>
-    if c.replicas.length > 0 then (c, .ok) else
-    if addr ≠ full c.maxRev then (c, .refused) else
-    -- reset()
-    let c := { c with replicas := [], backends := [], writers := [], readers := [], available := false,
-                      size := maxInt64 }
-    let dropReg (c : Ctl) : Ctl := { c with signalled := false, maxRev := "" }
-    if !createOk then (dropReg c, .failed) else
-    let id := c.nextId
-    let c := { c with nextId := id + 1, size := size }
-    if !setWoOk then (c.call id "SetReplicaMode" |> dropReg, .failed) else
-    let c := ({ (c.call id "SetReplicaMode") with replicas := [(addr, CMode.wo)], backends := [(⟨addr, .wo, id⟩ : Backend)] }).rebuild
-    let startFront (c : Ctl) : Ctl := if c.replicas.length > 0 then { c with frontUp := true } else c
-    if clone = "error" ∨ clone = "callfail" then (startFront (c.removeReplica addr CkEnv.none), .failed) else
-    let c := c.call id "SetReplicaMode"
-    if !setRwOk then (startFront (c.removeReplica addr CkEnv.none), .failed) else
-    let c := c.setMode addr .rw
-    match rev with
-    | none => (startFront c, .failed)
-    | some _ => (startFront ((c.updateVolStatus).updateCheckpoint ck), .ok)
-  | .add addr takeover createOk snapFails newSnapOk setWoOk ck =>
-    if c.hasReplica addr then (c, .refused) else
-    -- canAdd: at most one WO, unless the newcomer has seen more writes
-    let wo := c.replicas.find? fun r => r.2 = .wo
-    let pre : Option Ctl :=
-      match wo with
-      | none => some c
-      | some w =>
-        match takeover with
-        | some true => some (c.removeReplica w.1 CkEnv.none)
-        | _ => none
-    match pre with
-    | none => (c, .refused)
-    | some c =>
-      if c.rf = c.replicas.length then (c, .refused) else
-      if !createOk then (c, .failed) else
-      let id := c.nextId
-      let c := { c with nextId := id + 1 }
-      -- snapshot on every non-ERR backend; any failure aborts (nobody is marked)
-      let targets := c.backends.filter fun b => b.mode ≠ .err
-      let c := targets.foldl (fun c b => c.call b.id "Snapshot") c
-      if targets.any (fun b => snapFails.contains b.addr) then ({ (c.call id "Close") with closed := c.closed ++ [id] }, .failed) else
-      let c := c.call id "Snapshot"
-      if !newSnapOk then ({ (c.call id "Close") with closed := c.closed ++ [id] }, .failed) else
-      let c := c.call id "SetReplicaMode"
-      if !setWoOk then (c, .failed) else
-      let c := ({ c with replicas := c.replicas ++ [(addr, CMode.wo)], backends := c.backends ++ [(⟨addr, .wo, id⟩ : Backend)] }).rebuild
-      (((c.updateVolStatus).updateCheckpoint ck), .ok)
-  | .remove addr => (c.removeReplica addr CkEnv.none, .ok)
-  | .setMode addr m =>
-    if m = .wo then (c, .refused) else (c.setMode addr m, .ok)
-  | .verify addr rwChain woChain woCkpt rev setRwOk setRevOk ck =>
-    match c.replicas.find? (fun r => r.1 = addr), c.replicas.find? (fun r => r.2 = .rw) with
-    | some cur, some src =>
-      if cur.2 = .rw then (c, .ok) else
-      if cur.2 ≠ .wo then (c, .refused) else
-      match rwChain, woChain, woCkpt with
-      | some rwc, some woc, some ckp =>
-        if ckp ≠ "" ∧ !rwc.contains ckp then (c, .refused) else
-        -- position of the checkpoint in the RW chain (the loop variable keeps its last value)
-        let indx := match rwc.idxOf? ckp with
-                    | some i => i
-                    | none   => rwc.length - 1
-        if rwc.length = 0 ∨ woc.length < indx + 1 then (c, .failed)   -- slice out of range: handler panic
-        else if (rwc.drop 1).take indx ≠ (woc.drop 1).take indx then (c, .refused) else
+/-- the tail of `registerReplica`: elect a leader and signal it once a majority has registered -/
+def electAndSignal (c : Ctl) (r : Reg) (signalOk : Bool) (elected : String) : Ctl × CtlOut :=
+  if r.rebuilding then (c, .ok) else
+  let cur := if c.maxRev = "" ∨ c.rebuildingOf c.maxRev then r.addr else c.maxRev
+  if !legalElect c.registered cur (c.revOf cur) elected then (c, .envMismatch) else
+  let c1 : Ctl := { c with maxRev := elected }
+  if c1.registered.length ≥ c1.rf / 2 + 1 then
+    ((c1.signalReplica signalOk).1, if (c1.signalReplica signalOk).2 then .ok else .failed)
+  else (c1, .ok)
+
+/-- `registerReplica` -/
+def stepRegister (c : Ctl) (r : Reg) (signalOk alive : Bool) (elected : String) : Ctl × CtlOut :=
+  if r.uuid = "" then (c, .ok) else
+  let regs := (c.registered.filter fun x => !(x.uuid = r.uuid ∧ x.addr ≠ r.addr)).filter (fun x => x.addr ≠ r.addr) ++ [r]
+  let c1 : Ctl := { c with registered := regs }
+  if c1.replicas.length > 0 then (c1, .ok) else
+  if c1.signalled then
+    if r.addr = c1.maxRev then
+      -- the elected replica registers again: signal it again, then go on
+      if (c1.signalReplica signalOk).2 then electAndSignal (c1.signalReplica signalOk).1 r signalOk elected
+      else ((c1.signalReplica signalOk).1, .failed)
+    else if !alive then
+      -- the elected replica is unreachable: forget it and elect again
+      electAndSignal { c1 with registered := c1.registered.filter (fun x => x.addr ≠ c1.maxRev), maxRev := "", signalled := false }
+        r signalOk elected
+    else (c1, .ok)
+  else electAndSignal c1 r signalOk elected
+
+/-- a backend that was created but never attached is closed -/
+def closeNew (c : Ctl) (id : Nat) : Ctl := { (c.call id "Close") with closed := c.closed ++ [id] }
+
+/-- attach a new WO replica -/
+def attach (c : Ctl) (addr : String) (id : Nat) : Ctl :=
+  ({ c with replicas := c.replicas ++ [(addr, CMode.wo)], backends := c.backends ++ [(⟨addr, .wo, id⟩ : Backend)] }).rebuild
+
+/-- `startFrontend` (deferred in `Start`) -/
+def startFront (c : Ctl) : Ctl := if c.replicas.length > 0 then { c with frontUp := true } else c
+
+/-- `rmReplicaFromRegisteredReplicas` as called from `Start` (the full address never matches a key) -/
+def dropLeader (c : Ctl) : Ctl := { c with signalled := false, maxRev := "" }
+
+/-- `reset()` -/
+def reset (c : Ctl) : Ctl :=
+  { c with replicas := [], backends := [], writers := [], readers := [], available := false }
+
+/-- `reset()` followed by `c.size = math.MaxInt64` -/
+def startReset (c : Ctl) : Ctl := { c.reset with size := maxInt64 }
+
+/-- a backend id is taken by `factory.Create`; `Start` also adopts the replica's size -/
+def reserve (c : Ctl) (size : Nat) : Ctl := { c with nextId := c.nextId + 1, size := size }
+
+/-- `Start` with one address -/
+def stepStart (c : Ctl) (addr : String) (createOk : Bool) (size : Nat) (setWoOk : Bool) (clone : String)
+    (setRwOk : Bool) (rev : Option Nat) (ck : CkEnv) : Ctl × CtlOut :=
+  if c.replicas.length > 0 then (c, .ok) else
+  if addr ≠ full c.maxRev then (c, .refused) else
+  if !createOk then (c.startReset.dropLeader, .failed) else
+  let id := c.nextId
+  let c1 := c.startReset.reserve size
+  if !setWoOk then ((c1.call id "SetReplicaMode").dropLeader, .failed) else
+  let c2 := (c1.call id "SetReplicaMode").attach addr id
+  if clone = "error" ∨ clone = "callfail" then ((c2.removeReplica addr CkEnv.none).startFront, .failed) else
+  let c3 := c2.call id "SetReplicaMode"
+  if !setRwOk then ((c3.removeReplica addr CkEnv.none).startFront, .failed) else
+  let c4 := c3.setMode addr .rw
+  match rev with
+  | none => (c4.startFront, .failed)
+  | some _ => (((c4.updateVolStatus).updateCheckpoint ck).startFront, .ok)
+
+/-- `AddReplica` after `canAdd` let it through -/
+def addAfterCheck (c : Ctl) (addr : String) (createOk : Bool) (snapFails : List String)
+    (newSnapOk setWoOk : Bool) (ck : CkEnv) : Ctl × CtlOut :=
+  if c.rf = c.replicas.length then (c, .refused) else
+  if !createOk then (c, .failed) else
+  let id := c.nextId
+  let c1 : Ctl := { c with nextId := id + 1 }
+  -- snapshot on every non-ERR backend; any failure aborts (nobody is marked)
+  let targets := c1.backends.filter fun b => b.mode ≠ .err
+  let c2 := targets.foldl (fun c b => c.call b.id "Snapshot") c1
+  if targets.any (fun b => snapFails.contains b.addr) then (c2.closeNew id, .failed) else
+  if !newSnapOk then ((c2.call id "Snapshot").closeNew id, .failed) else
+  if !setWoOk then ((c2.call id "Snapshot").call id "SetReplicaMode", .failed) else
+  (((((c2.call id "Snapshot").call id "SetReplicaMode").attach addr id).updateVolStatus).updateCheckpoint ck, .ok)
+
+/-- `AddReplica` -/
+def stepAdd (c : Ctl) (addr : String) (takeover : Option Bool) (createOk : Bool) (snapFails : List String)
+    (newSnapOk setWoOk : Bool) (ck : CkEnv) : Ctl × CtlOut :=
+  if c.hasReplica addr then (c, .refused) else
+  -- canAdd: at most one WO, unless the newcomer has seen more writes
+  match c.replicas.find? fun r => r.2 = .wo with
+  | none => addAfterCheck c addr createOk snapFails newSnapOk setWoOk ck
+  | some w =>
+    if takeover = some true then
+      addAfterCheck (c.removeReplica w.1 CkEnv.none) addr createOk snapFails newSnapOk setWoOk ck
+    else (c, .refused)
+
+/-- the chain comparison of `VerifyRebuildReplica`: `none` = slice out of range (handler panic) -/
+def chainsAgree (rwc woc : List String) (ckp : String) : Option Bool :=
+  let indx := match rwc.idxOf? ckp with
+              | some i => i
+              | none   => rwc.length - 1
+  if rwc.length = 0 ∨ woc.length < indx + 1 then none
+  else some ((rwc.drop 1).take indx = (woc.drop 1).take indx)
+
+/-- `VerifyRebuildReplica` -/
+def stepVerify (c : Ctl) (addr : String) (rwChain woChain : Option (List String)) (woCkpt : Option String)
+    (rev : Option Nat) (setRwOk setRevOk : Bool) (ck : CkEnv) : Ctl × CtlOut :=
+  match c.replicas.find? (fun r => r.1 = addr), c.replicas.find? (fun r => r.2 = .rw) with
+  | some cur, some _src =>
+    if cur.2 = .rw then (c, .ok) else
+    if cur.2 ≠ .wo then (c, .refused) else
+    match rwChain, woChain, woCkpt with
+    | some rwc, some woc, some ckp =>
+      if ckp ≠ "" ∧ !rwc.contains ckp then (c, .refused) else
+      match chainsAgree rwc woc ckp with
+      | none => (c, .failed)
+      | some false => (c, .refused)
+      | some true =>
         match rev with
         | none => (c, .refused)
         | some n =>
@@ -319,73 +343,83 @@ def step (c0 : Ctl) (op : CtlOp) : Ctl × CtlOut :=
           if !setRwOk then (c, .refused) else
           let c := c.call id s!"SetRevisionCounter {n}"
           if !setRevOk then (c, .refused) else
-          let _ := src
           (((c.setMode addr .rw).updateVolStatus).updateCheckpoint ck, .ok)
-      | _, _, _ => (c, .refused)
-    | _, _ => (c, .refused)
-  | .write off len fails =>
-    if c.readOnly then (c, .refused) else
-    if off + len > c.size then (c, .refused) else
-    if !c.available then (c, .failed) else
-    let c := c.writers.foldl (fun c w => c.call w.2 "WriteAt") c
-    let errs := (c.writers.filter fun w => fails.contains w.1).map (·.1)
-    if errs.isEmpty then (c, .ok) else
-    let okMaj := majorityOk c.writers.length errs.length
-    let (c1, remains) := c.ioFail errs
-    (c1, if okMaj ∧ !remains then .ok else .failed)
-  | .sync fails =>
-    if c.readOnly then (c, .refused) else
-    if !c.available then (c, .failed) else
-    let c := c.writers.foldl (fun c w => c.call w.2 "Sync") c
-    let errs := (c.writers.filter fun w => fails.contains w.1).map (·.1)
-    if errs.isEmpty then (c, .ok) else
-    let okMaj := majorityOk c.writers.length errs.length
-    let (c1, remains) := c.ioFail errs
-    (c1, if okMaj ∧ !remains then .ok else .failed)
-  | .unmap fails =>
-    if c.readOnly then (c, .refused) else
-    if !c.available then (c, .failed) else
-    let c := c.writers.foldl (fun c w => c.call w.2 "Unmap") c
-    let errs := (c.writers.filter fun w => fails.contains w.1).map (·.1)
-    if errs.isEmpty then (c, .ok) else
-    let okMaj := majorityOk c.writers.length errs.length
-    let (c1, remains) := c.ioFail errs
-    (c1, if okMaj ∧ !remains then .ok else .failed)
-  | .read off len tried =>
-    if off + len > c.size then (c, .refused) else
-    if c.replicas.length = 0 then (c, .failed) else
-    if c.replicas.length = 1 ∧ (c.replicas.head?.map (·.2)) = some .wo then (c, .failed) else
-    if !c.available then (c, .failed) else
-    let c := tried.foldl (fun c t => match c.readers.find? (fun r => r.1 = t.1) with
-                                      | some r => c.call r.2 "ReadAt" | none => c) c
-    let errs := (tried.filter fun t => t.2 = .fail).map (·.1)
-    let served := tried.any fun t => t.2 = .ok
-    if errs.isEmpty then (c, if served then .ok else .failed) else
-    let (c1, remains) := c.ioFail errs
-    (c1, if served ∧ !remains then .ok else .failed)
-  | .snapshot _name existing fails =>
-    if c.rwCount ≠ c.rf then (c, .refused) else
-    match existing with
-    | none => (c, .failed)
-    | some true => (c, .refused)
-    | some false =>
-      let targets := c.backends.filter fun b => b.mode ≠ .err
-      let c := targets.foldl (fun c b => c.call b.id "Snapshot") c
-      let errs := (targets.filter fun b => fails.contains b.addr).map (·.addr)
-      if errs.isEmpty then (c, .ok) else
-      let (c1, remains) := c.handleError errs
-      (c1, if remains then .failed else .ok)
-  | .resize size fails =>
-    if size ≤ c.size then (c, .refused) else
+    | _, _, _ => (c, .refused)
+  | _, _ => (c, .refused)
+
+/-- `WriteAt` / `Sync` / `Unmap` after the gate and the range check -/
+def stepFanOut (c : Ctl) (method : String) (fails : List String) : Ctl × CtlOut :=
+  if !c.available then (c, .failed) else
+  let c := c.writers.foldl (fun c w => c.call w.2 method) c
+  let errs := (c.writers.filter fun w => fails.contains w.1).map (·.1)
+  if errs.isEmpty then (c, .ok) else
+  let okMaj := majorityOk c.writers.length errs.length
+  let (c1, remains) := c.ioFail errs
+  (c1, if okMaj ∧ !remains then .ok else .failed)
+
+def stepWrite (c : Ctl) (off len : Nat) (fails : List String) : Ctl × CtlOut :=
+  if c.readOnly then (c, .refused) else
+  if off + len > c.size then (c, .refused) else
+  stepFanOut c "WriteAt" fails
+
+def stepSync (c : Ctl) (method : String) (fails : List String) : Ctl × CtlOut :=
+  if c.readOnly then (c, .refused) else stepFanOut c method fails
+
+def stepRead (c : Ctl) (off len : Nat) (tried : List (String × Out)) : Ctl × CtlOut :=
+  if off + len > c.size then (c, .refused) else
+  if c.replicas.length = 0 then (c, .failed) else
+  if c.replicas.length = 1 ∧ (c.replicas.head?.map (·.2)) = some .wo then (c, .failed) else
+  if !c.available then (c, .failed) else
+  let c := tried.foldl (fun c t => match c.readers.find? (fun r => r.1 = t.1) with
+                                    | some r => c.call r.2 "ReadAt" | none => c) c
+  let errs := (tried.filter fun t => t.2 = .fail).map (·.1)
+  let served := tried.any fun t => t.2 = .ok
+  if errs.isEmpty then (c, if served then .ok else .failed) else
+  let (c1, remains) := c.ioFail errs
+  (c1, if served ∧ !remains then .ok else .failed)
+
+def stepSnapshot (c : Ctl) (existing : Option Bool) (fails : List String) : Ctl × CtlOut :=
+  if c.rwCount ≠ c.rf then (c, .refused) else
+  match existing with
+  | none => (c, .failed)
+  | some true => (c, .refused)
+  | some false =>
     let targets := c.backends.filter fun b => b.mode ≠ .err
-    let c := targets.foldl (fun c b => c.call b.id "Resize") c
+    let c := targets.foldl (fun c b => c.call b.id "Snapshot") c
     let errs := (targets.filter fun b => fails.contains b.addr).map (·.addr)
-    if errs.isEmpty then ({ c with size := size }, .ok) else
+    if errs.isEmpty then (c, .ok) else
     let (c1, remains) := c.handleError errs
-    if remains then (c1, .failed) else ({ c1 with size := size }, .ok)
-  | .mon addr err =>
-    let c := if err then c.setMode addr .err else c
-    (c.removeReplica addr CkEnv.none, .ok)
+    (c1, if remains then .failed else .ok)
+
+def stepResize (c : Ctl) (size : Nat) (fails : List String) : Ctl × CtlOut :=
+  if size ≤ c.size then (c, .refused) else
+  let targets := c.backends.filter fun b => b.mode ≠ .err
+  let c := targets.foldl (fun c b => c.call b.id "Resize") c
+  let errs := (targets.filter fun b => fails.contains b.addr).map (·.addr)
+  if errs.isEmpty then ({ c with size := size }, .ok) else
+  let (c1, remains) := c.handleError errs
+  if remains then (c1, .failed) else ({ c1 with size := size }, .ok)
+
+def stepMon (c : Ctl) (addr : String) (err : Bool) : Ctl × CtlOut :=
+  let c := if err then c.setMode addr .err else c
+  (c.removeReplica addr CkEnv.none, .ok)
+
+def step (c0 : Ctl) (op : CtlOp) : Ctl × CtlOut :=
+  let c := c0.clearLog
+  match op with
+  | .register r signalOk alive elected => stepRegister c r signalOk alive elected
+  | .start addr createOk size setWoOk clone setRwOk rev ck => stepStart c addr createOk size setWoOk clone setRwOk rev ck
+  | .add addr takeover createOk snapFails newSnapOk setWoOk ck => stepAdd c addr takeover createOk snapFails newSnapOk setWoOk ck
+  | .remove addr => (c.removeReplica addr CkEnv.none, .ok)
+  | .setMode addr m => if m = .wo then (c, .refused) else (c.setMode addr m, .ok)
+  | .verify addr rwChain woChain woCkpt rev setRwOk setRevOk ck => stepVerify c addr rwChain woChain woCkpt rev setRwOk setRevOk ck
+  | .write off len fails => stepWrite c off len fails
+  | .sync fails => stepSync c "Sync" fails
+  | .unmap fails => stepSync c "Unmap" fails
+  | .read off len tried => stepRead c off len tried
+  | .snapshot _ existing fails => stepSnapshot c existing fails
+  | .resize size fails => stepResize c size fails
+  | .mon addr err => stepMon c addr err
 
 def run (c : Ctl) : List CtlOp → Ctl
   | [] => c
